@@ -70,7 +70,7 @@ def gen_stack_cases(rng, tier):
         full = E.hexspec(hs + data)
         total = len(hs) + len(data)
         ks = ["-", str(len(hs)), str(len(hs) - 1), str(len(hs) + 1), str(len(hs) + 3)]
-        ks.append(E.W.cuts_str(E.W.random_cuts(rng, total)))
+        ks.append(E.few_cuts(rng, total, around=len(hs)))
         ks = ks if tier == "thorough" else ["-"] + rng.sample(ks[1:], 2)
         cases.append(["rawpeer %s %s %s" % (E.cfg_str(c), full, k) for k in ks])
     return cases
